@@ -9,11 +9,13 @@ Variable matchf : nat -> mstate -> mres.
 Variable proc : mstate -> list N -> res (list mentry).
 Variable input : list N.
 Let n := length input.
-Hypothesis G : good_step matchf input.
+(* an invariant of the matcher state (trivial in the wrappers below) *)
+Variable Inv : mstate -> Prop.
+Hypothesis G : good_step_on matchf input Inv.
 (* what the tree builder needs of the matcher state it is given (for process_matching_substring:
    the recorded groups lie inside the match, see pms_text below) *)
 Variable P : mstate -> Prop.
-Hypothesis GP : forall pos s s', pos <= n -> matchf pos s = MTrue s' -> P s'.
+Hypothesis GP : forall pos s s', pos <= n -> Inv s -> matchf pos s = MTrue s' -> P s'.
 Hypothesis Hproc : forall s a b v, P s -> get_pstart s 0 = Some a -> get_pend s 0 = Some b -> a < b -> b <= n ->
   proc s (slice input a b) = Ok v -> vtext v = slice input a b.
 
@@ -66,11 +68,11 @@ Proof. intros H. unfold slice. apply firstn_all2. rewrite skipn_length. fold n. 
 (* state after a NonMatch that precedes a match: the match text is pending *)
 Definition pending (st : anst) (a b : nat) : Prop :=
   a_next st = Some (slice input a b) /\ (exists pe, a_prev st = Some pe) /\ get_pend (a_ms st) 0 = Some b
-  /\ get_pstart (a_ms st) 0 = Some a /\ P (a_ms st)
+  /\ get_pstart (a_ms st) 0 = Some a /\ P (a_ms st) /\ Inv (a_ms st)
   /\ a_skip st = false /\ a < b /\ b <= n.
 
 Definition searching (st : anst) (pe : nat) : Prop :=
-  a_next st = None /\ a_prev st = Some pe /\ a_skip st = false /\ pe <= n.
+  a_next st = None /\ a_prev st = Some pe /\ a_skip st = false /\ pe <= n /\ Inv (a_ms st).
 
 Theorem an_all_text : forall fuel st l, an_all fuel st = Ok l ->
   (forall pe, searching st pe -> flat_map atext l = skipn pe input /\ length l <= 2 * (n - pe) + 1)
@@ -79,12 +81,12 @@ Proof.
   induction fuel as [|f IH]; intros st l H; [discriminate|].
   rewrite an_all_S in H. split.
   - (* searching state *)
-    intros pe (Hn & Hp & Hs & Hpe).
+    intros pe (Hn & Hp & Hs & Hpe & Hinv).
     unfold an_next_gen in H. rewrite Hp, Hn, Hs in H. cbn [andb] in H.
-    pose proof (G pe (a_ms st) Hpe) as Gp.
+    pose proof (G pe (a_ms st) Hpe Hinv) as Gp.
     pose proof (GP pe (a_ms st)) as Gq.
     destruct (matchf pe (a_ms st)) as [s1|s1| |e]; cbn [mres_bool rbind] in H; try contradiction.
-    + specialize (Gq s1 Hpe eq_refl). destruct Gp as (a & b & Ha & Hb & H1 & H2 & H3). rewrite Ha, Hb in H.
+    + specialize (Gq s1 Hpe Hinv eq_refl). destruct Gp as [(a & b & Ha & Hb & H1 & H2 & H3) Hinv1]. rewrite Ha, Hb in H.
       replace (Nat.eqb a b) with false in H by (symmetry; apply Nat.eqb_neq; lia).
       destruct (Nat.eqb pe a) eqn:Epa.
       * apply Nat.eqb_eq in Epa. subst a.
@@ -116,7 +118,7 @@ Proof.
       * apply Nat.ltb_ge in Lt. injection H as <-. cbn. assert (pe = n) by lia. subst pe.
         rewrite skipn_all2 by (fold n; lia). split; [reflexivity|lia].
   - (* the pending match is emitted *)
-    intros a b (Hnx & (pe & Hp) & Hpend & Hpst & HP & Hsk & Hab & Hb).
+    intros a b (Hnx & (pe & Hp) & Hpend & Hpst & HP & Hinv & Hsk & Hab & Hb).
     unfold an_next_gen in H. rewrite Hp, Hnx in H. rewrite Hpend in H. cbn [analyze_entry] in H.
     destruct (proc (a_ms st) (slice input a b)) as [v| | |] eqn:Ev; cbn [rbind] in H; try discriminate.
     set (st' := {| a_next := None; a_prev := Some b; a_skip := a_skip st; a_ms := a_ms st |}) in H.
@@ -129,12 +131,12 @@ Proof.
 Qed.
 
 (* from the state Regex::analyze starts the iterator in *)
-Corollary analyze_partition fuel s l :
+Corollary analyze_partition_on fuel s l : Inv s ->
   an_all fuel {| a_next := None; a_prev := Some 0; a_skip := false; a_ms := s |} = Ok l ->
   flat_map atext l = input /\ length l <= 2 * n + 1.
 Proof.
-  intros H. destruct (an_all_text _ _ _ H) as [H1 _].
-  destruct (H1 0) as [T L]; [unfold searching; cbn; repeat split; lia|].
+  intros Hinv H. destruct (an_all_text _ _ _ H) as [H1 _].
+  destruct (H1 0) as [T L]; [unfold searching; cbn; repeat split; auto; lia|].
   cbn [skipn] in T. split; [exact T|lia].
 Qed.
 
@@ -165,6 +167,18 @@ Proof.
   unfold an_next_gen. rewrite E. reflexivity.
 Qed.
 End A.
+
+(* the instance with the trivial invariant *)
+Corollary analyze_partition matchf proc input (G : good_step matchf input) (P : mstate -> Prop)
+  (GP : forall pos s s', pos <= length input -> matchf pos s = MTrue s' -> P s')
+  (Hproc : forall s a b v, P s -> get_pstart s 0 = Some a -> get_pend s 0 = Some b -> a < b -> b <= length input ->
+     proc s (slice input a b) = Ok v -> vtext v = slice input a b) fuel s l :
+  an_all matchf proc input fuel {| a_next := None; a_prev := Some 0; a_skip := false; a_ms := s |} = Ok l ->
+  flat_map atext l = input /\ length l <= 2 * length input + 1.
+Proof.
+  apply (analyze_partition_on matchf proc input (fun _ => True) (good_step_trivial _ _ G) P
+           (fun pos s s' Hp _ E => GP pos s s' Hp E) Hproc fuel s l I).
+Qed.
 
 (* the driver the correspondence check executes (Model/Run.v) collects exactly the entries of
    an_all when it reports a finished iteration *)
